@@ -173,21 +173,41 @@ pub fn image_check(cfg: &TreeCfg, dir: &Path) -> String {
             }
         }
     }
-    // the recovered tree must be usable without colliding with leftovers
+    // the recovered tree must be usable without colliding with leftovers, and what it then writes
+    // must itself be recoverable:
+    //  (A) the first version change after the recovery is a merging compaction (its version file is
+    //      shorter than any left-over one); a reopen must then read exactly what the recovery read;
+    //  (B) write / flush / compact / read, reopen again: the old keys still read the same.
     let cont = (|| -> Result<(), String> {
-        let mut d = DriverLite::open(cfg, dir)?;
-        let t = d.tree.take().unwrap();
-        let s = t.get_highest_persisted_seqno().map_or(1, |x| x + 1);
-        let key = b"zz-after-crash".to_vec();
-        t.insert(key.clone(), b"alive".to_vec(), s);
-        t.flush_active_memtable(0).map_err(|e| format!("flush: {e:?}"))?;
-        t.major_compact(u64::MAX, 0).map_err(|e| format!("major_compact: {e:?}"))?;
-        let got = t.get(&key, SeqNo::MAX).map_err(|e| format!("get: {e:?}"))?;
-        if got.as_deref() != Some(&b"alive"[..]) {
-            return Err(format!("the key written after recovery reads {got:?}"));
+        {
+            let mut d = DriverLite::open(cfg, dir)?;
+            let t = d.tree.take().unwrap();
+            t.major_compact(u64::MAX, 0).map_err(|e| format!("major_compact right after recovery: {e:?}"))?;
         }
-        for k in &cfg.keys {
-            t.get(k, SeqNo::MAX).map_err(|e| format!("get after compaction: {e:?}"))?;
+        let again = workload(cfg, dir, &[]).map_err(|e| format!("reopen after [recover, major_compact]: {e}"))?;
+        if again != ans {
+            return Err(format!("[recover, major_compact, reopen] reads differ from the recovery's: {}", crate::fsx::diff_lines(&ans, &again)));
+        }
+        {
+            let mut d = DriverLite::open(cfg, dir)?;
+            let t = d.tree.take().unwrap();
+            let s = t.get_highest_persisted_seqno().map_or(1, |x| x + 1);
+            let key = b"zz-after-crash".to_vec();
+            t.insert(key.clone(), b"alive".to_vec(), s);
+            t.flush_active_memtable(0).map_err(|e| format!("flush: {e:?}"))?;
+            t.major_compact(u64::MAX, 0).map_err(|e| format!("major_compact: {e:?}"))?;
+            let got = t.get(&key, SeqNo::MAX).map_err(|e| format!("get: {e:?}"))?;
+            if got.as_deref() != Some(&b"alive"[..]) {
+                return Err(format!("the key written after recovery reads {got:?}"));
+            }
+            for k in &cfg.keys {
+                t.get(k, SeqNo::MAX).map_err(|e| format!("get after compaction: {e:?}"))?;
+            }
+        }
+        let last = workload(cfg, dir, &[]).map_err(|e| format!("reopen after [recover, major_compact, reopen, insert, flush, major_compact]: {e}"))?;
+        let point = |v: &[String]| v.iter().filter(|l| l.starts_with("get ") || l.starts_with("contains ") || l.starts_with("size_of ")).cloned().collect::<Vec<_>>();
+        if point(&last) != point(&ans) {
+            return Err(format!("point reads of the old keys changed after [write, flush, compact, reopen]: {}", crate::fsx::diff_lines(&point(&ans), &point(&last))));
         }
         Ok(())
     })();
@@ -434,7 +454,27 @@ pub fn subjects(tier: &str) -> Vec<Subject> {
         cfg: big_blocks.clone().with_blob(1),
         ops: vec![Op::MultiPut { ks: vec![0, 1] }, fl.clone(), Op::Snap, Op::Put { k: 0, big: true }, fl.clone()],
     });
+    // index and filter blocks loaded on demand (not pinned in memory): every read goes through the
+    // block loader of the full (non-partitioned) index
+    {
+        let mut unp = big_blocks.clone();
+        unp.pin_index = false;
+        unp.pin_filter = false;
+        v.push(Subject {
+            name: "unpinned-index-filter".into(),
+            cfg: unp,
+            ops: vec![Op::MultiPut { ks: vec![0, 1] }, fl.clone(), Op::Snap, Op::Put { k: 0, big: false }, fl.clone()],
+        });
+    }
     if !quick {
+        let mut pp = big_blocks.clone();
+        pp.index_partitioning = true;
+        pp.filter_partitioning = true;
+        v.push(Subject {
+            name: "partitioned-pinned".into(),
+            cfg: pp,
+            ops: vec![Op::MultiPut { ks: vec![0, 1] }, fl.clone(), Op::Snap, Op::Put { k: 0, big: false }, fl.clone()],
+        });
         v.push(Subject { name: "one-table".into(), cfg: base.clone(), ops: vec![Op::MultiPut { ks: vec![0, 1] }, fl.clone()] });
         // after a major compaction with watermark 0: old version files still on disk
         v.push(Subject {
